@@ -10,10 +10,17 @@ the machine-code column = the bytes appended), bound to the code POINTWISE:
                        Assembler with a StringLogger (leg L: logged line + bytes appended) and formats single operands (leg O: every
                        register of every class, a memory grid, immediates, labels of every kind, Compiler virtual registers);
                        a GENERIC lexer (words, numbers, one-character punctuation - no names) turns the text into tokens;
+                       every form with a ModRM memory operand / a label operand is additionally emitted with the reference on a label that is
+                       UNBOUND at emit time, BOUND before, and bound IN ANOTHER SECTION, combined with the form's immediate set to pairwise
+                       distinct non-zero bytes (0x7A / 0x3322 / 0x44332211 by width); the fixups / relocations CodeHolder registered for the
+                       instruction (field offset, width) are exported with the observation;
   TLC (FmtObs.tla)     every observation is an initial state; invariant Verdict(o) = ok, i.e. Canon(tokens) matches Denote(request)
-                       and hexColumn = bytesAppended (".." only over one displacement field of a relocated reference);
+                       and the machine-code column has one pair per byte appended, each equal to that byte, except that exactly the
+                       displacement / address field of a registered fixup or relocation may be masked ".." (whole field or nothing);
   TLC (FmtLogTrace.tla) logger transcripts: random programs of 20..60 emitter calls; the lines map one-to-one, in order, onto the
-                       calls and the bytes of the logged calls are contiguous and add up to the section sizes.
+                       calls and the bytes of the logged calls are contiguous and add up to the section sizes (calls include jumps / calls /
+                       label-based memory operands with immediates on program labels in any state, embed_label / embed_label_delta,
+                       AArch64 b / bl / cbz / tbz / adr / ldr-literal on program labels).
 Syntax (blanks, case, ',', '#', '+', ':', 'ptr', number base, '*1', zero displacement, order of option prefixes, the explanation
 of an immediate, asmjit's alias notation) is normalised away; only the denotation is judged."""
 import collections, concurrent.futures, json, os, random, re, sys, threading, time
@@ -237,10 +244,22 @@ def signed(v):
 
 def request_text(o):
     if o.get("a") == "a64":
-        return (c02.render(o.get("mn") or "<operand>", o["o"]) if not any(x.get("k") in ("lb", "vr") for x in o["o"]) else None) or json.dumps(o["o"], separators=(",", ":"))
+        return (c02.render(o.get("mn") or "<operand>", o["o"]) if not any(x.get("k") in ("lb", "ml", "vr") for x in o["o"]) else None) or json.dumps(o["o"], separators=(",", ":"))
     import c01
+
+    def ltxt(d):
+        return [f"L{d['id']}", d["nm"], f"{d['pnm']}.{d['nm']}", f"L{d['pid']}.{d['nm']}", f"L{d['id']}@{d['nm']}"][d["kind"]]
     ops = []
     for x in o["ops"]:
+        if x["t"] == "m" and x.get("bt") == "lb":
+            sz = {0: "", 1: "byte ", 2: "word ", 4: "dword ", 8: "qword ", 16: "xmmword ", 32: "ymmword ", 64: "zmmword "}.get(x["sz"], f"m{x['sz']} ")
+            ops.append(f"{sz}{['', 'es:', 'cs:', 'ss:', 'ds:', 'fs:', 'gs:'][x['sg']]}[{ltxt(x['lb'])}{int(x['dv']):+d}]" + (f"{{1to{x['bc']}}}" if x["bc"] else "") +
+                       {-1: "", 0: " (label unbound)", 1: " (label bound)", 2: " (label in another section)"}.get(o.get("lst", -1), ""))
+            continue
+        if x["t"] == "l":
+            li = sum(1 for y in o["ops"][:o["ops"].index(x)] if y["t"] == "l")
+            if li < len(o.get("lbl", [])):
+                ops.append(ltxt(o["lbl"][li])); continue
         try:
             ops.append(c01.opstr(x) if x["t"] in ("r", "m", "i", "l") and x.get("bt") not in ("lb", "vr") else json.dumps(x, separators=(",", ":")))
         except Exception:
@@ -473,7 +492,7 @@ def run(ctx):
 
 
 # ----------------------------------------------------------------------------------------------------------------
-OURS = ("a", "leg", "fl", "tx", "tk", "hx", "b", "nl", "ic", "cm")
+OURS = ("a", "leg", "fl", "tx", "tk", "hx", "b", "nl", "ic", "cm", "fx")
 
 
 def replay(ctx, path):
@@ -490,7 +509,7 @@ def replay(ctx, path):
         return
     bdir = ctx.build("plain", "fmtobs")
     again = []
-    x86 = [r for r in recs if r.get("a") == "x86" and r.get("leg") in ("F", "L") and r.get("f") and not any(x["t"] in ("vr", "lb") or x.get("bt") in ("vr", "lb") for x in r["ops"])]
+    x86 = [r for r in recs if r.get("a") == "x86" and r.get("leg") in ("F", "L") and r.get("f") and not any(x["t"] in ("vr", "lb") or x.get("bt") == "vr" for x in r["ops"])]
     a64 = [r for r in recs if r.get("a") == "a64" and "iid" in r]
     rest = [r for r in recs if r not in x86 and r not in a64]
     if x86:
